@@ -10,6 +10,7 @@ package main
 
 import (
 	"context"
+	"encoding/json"
 	"fmt"
 	"math/rand"
 	"os"
@@ -265,6 +266,37 @@ func c18Run(r *Run, h int) {
 		return
 	}
 	defer px.Close()
+	// the in-memory server answers monitor_cancel with "not implemented"; a real server cancels. In half of
+	// the runs the proxy answers in its place, so that the client's path after a successful cancel (it
+	// forgets the monitor) runs next to the readers and the notification handlers
+	cancelWorks := rng.Intn(2) == 0
+	if cancelWorks {
+		var cmu sync.Mutex
+		cancels := map[string]bool{}
+		px.rewrite = func(session int, toClient bool, raw json.RawMessage) json.RawMessage {
+			var head struct {
+				Method string          `json:"method"`
+				ID     json.RawMessage `json:"id"`
+			}
+			if json.Unmarshal(raw, &head) != nil {
+				return raw
+			}
+			cmu.Lock()
+			defer cmu.Unlock()
+			key := fmt.Sprintf("%d/%s", session, head.ID)
+			if !toClient {
+				if head.Method == "monitor_cancel" {
+					cancels[key] = true
+				}
+				return raw
+			}
+			if head.Method == "" && cancels[key] {
+				delete(cancels, key)
+				return json.RawMessage(fmt.Sprintf(`{"id":%s,"result":{},"error":null}`, head.ID))
+			}
+			return raw
+		}
+	}
 	ctx, cancel := ctxT(60 * time.Second)
 	defer cancel()
 	// initial rows
@@ -294,7 +326,7 @@ func c18Run(r *Run, h int) {
 		return
 	}
 	defer a.Close()
-	cs := map[string]interface{}{"reconnect": reconnect, "run": h, "seed": r.Seed}
+	cs := map[string]interface{}{"reconnect": reconnect, "run": h, "seed": r.Seed, "monitor_cancel_succeeds": cancelWorks}
 	if err := a.Connect(ctx); err != nil {
 		r.Violation("live", cs, err.Error(), "connected", true, "cannot connect", "")
 		return
@@ -471,7 +503,14 @@ func c18Run(r *Run, h int) {
 			})
 			if err == nil {
 				otherMonitored.Store(true)
-				stat.call("MonitorCancel", limit, func(ctx context.Context) error { return a.MonitorCancel(ctx, cookie) })
+				var cerr error
+				stat.call("MonitorCancel", limit, func(ctx context.Context) error { cerr = a.MonitorCancel(ctx, cookie); return cerr })
+				if cerr == nil {
+					stat.mu.Lock()
+					stat.count["MonitorCancel(ok)"]++
+					stat.mu.Unlock()
+					otherMonitored.Store(false) // cancelled: monitor the table again next time
+				}
 			}
 		}
 		switch lr.Intn(4) {
